@@ -3,8 +3,8 @@
    Evqe/Denote.v; proofs: Evqe/GenomeOps_proofs.v, Evqe/Denote_proofs.v, Evqe/C16_proofs.v.
    Quantifiers: every valid individual (including layers without parameters and 1-qubit individuals), every k,
    every layer id (any integer, taken modulo the layer count), every value vector; values of an arbitrary type V. *)
-From QV Require Import Evqe.Genome Evqe.GenomeOps_proofs Evqe.Stream Evqe.RandLayer Evqe.Circuit Evqe.Denote
-  Evqe.Denote_proofs Evqe.C16_proofs.
+From QV Require Import Evqe.Genome Evqe.GenomeOps_proofs Evqe.Stream Evqe.RandLayer Evqe.RandLayer_proofs Evqe.Circuit
+  Evqe.Denote Evqe.Denote_proofs Evqe.C16_proofs.
 Open Scope Z_scope.
 
 (* appended layers keep all layers and values as a prefix, every old layer keeps its value slice, the result is
@@ -26,6 +26,50 @@ Theorem C16_random_append_is_append : forall legacy (i : individual Z) n_layers 
   exists new vs, add_layers i new vs = Ok i' /\ (randomize = false -> vs = repeat 0 (Z.to_nat (n_params_of new))).
 Proof. exact add_random_layers_is_add_layers. Qed.
 Print Assumptions C16_random_append_is_append.
+
+(* add_random_layers with n_layers >= 1 on a valid individual with at least one qubit: whenever the decision
+   stream is long enough (no stream error, enough fuel) it returns a valid individual with all layers and values
+   kept as a prefix - it never raises.  (Same statement as C20_append_chain; restated here because it is C16's
+   "returns a valid individual or raises the documented exception" clause for this operation.) *)
+Theorem C16_random_append_total : forall (i : individual Z) n_layers randomize seed s fuel,
+  individual_is_valid i = true -> 1 <= i_qubits i -> 1 <= n_layers ->
+  match add_random_layers false i n_layers randomize seed s fuel with
+  | Ok (i', _) =>
+      individual_is_valid i' = true /\ i_qubits i' = i_qubits i /\
+      exists new vs, i_layers i' = i_layers i ++ new /\ i_values i' = i_values i ++ vs /\
+                     Z.of_nat (length new) = n_layers /\
+                     (forall lst, last_res (i_layers i) = Ok lst -> chain_ok (lst :: new) = true) /\
+                     (chain_ok (i_layers i) = true -> chain_ok (i_layers i') = true)
+  | Err e => is_stream_error e = true
+  end.
+Proof. exact add_random_layers_spec. Qed.
+Print Assumptions C16_random_append_total.
+
+(* the one exception: an individual on 0 qubits is valid (the constructors accept it), and appending to it raises
+   EVQECircuitLayerException ("A circuit layer may not have fewer than one qubit") - not an out-of-range argument
+   of add_random_layers.  Observed on the implementation; part of the correspondence. *)
+Theorem C16_random_append_zero_qubits : forall legacy (i : individual Z) n_layers randomize seed s fuel,
+  individual_is_valid i = true -> i_qubits i = 0 -> 1 <= n_layers ->
+  exists e, add_random_layers legacy i n_layers randomize seed s fuel = Err e /\
+            (e = LayerException \/ is_draw_error e = true).
+Proof. exact add_random_layers_zero_qubits. Qed.
+Print Assumptions C16_random_append_zero_qubits.
+
+(* the property clause in one statement: a zero-initialised RANDOM append (randomize_parameter_values = False)
+   leaves the denotation of get_quantum_circuit() unchanged (values = integer tokens, token 0 = the value 0) *)
+Theorem C16_random_append_zero_identity :
+  forall (M : Type) (mul : M -> M -> M) (one : M) (sem : instr Z -> M),
+  (forall m, mul m one = m) ->
+  (forall q, sem (IId q) = one) ->
+  (forall q, sem (IU q (AVal 0) (AVal 0) (AVal 0)) = one) ->
+  (forall c t, sem (ICU3 c t (AVal 0) (AVal 0) (AVal 0)) = one) ->
+  forall legacy (i : individual Z) n_layers seed s fuel i' rest,
+  individual_is_valid i = true ->
+  add_random_layers legacy i n_layers false seed s fuel = Ok (i', rest) ->
+  Z.of_nat (length (i_layers i')) <= 1000000 ->
+  exists c c', concrete false i = Ok c /\ concrete false i' = Ok c' /\ den mul one sem c' = den mul one sem c.
+Proof. exact @random_append_zero_identity. Qed.
+Print Assumptions C16_random_append_zero_identity.
 
 (* zero-initialised append: the denotation of get_quantum_circuit() is unchanged, for ANY semantics of the
    instructions in any structure (M, mul, one) with m * one = m in which id, U(0,0,0) and CU3(0,0,0) denote one.
